@@ -699,9 +699,17 @@ class ProtoEval:
                 a = st.body[0]
                 tg = a.targets[0].id if isinstance(a.targets[0], ast.Name) else None
                 v = a.value
+                cnt = v.args[1] if isinstance(v, ast.Call) and len(v.args) > 1 else None
+                if isinstance(cnt, ast.Name):
+                    # a local bound once to the number of crosses
+                    ds = [n.value for n in ast.walk(self.f.node) if isinstance(n, ast.Assign) and len(n.targets) == 1 and isinstance(n.targets[0], ast.Name) and n.targets[0].id == cnt.id]
+                    if len(ds) == 1:
+                        cnt = ds[0]
                 if tg in ("nmating", "nprogeny") and isinstance(v, ast.Call) and self.prog.dotted(self.f.module, v.func) == "numpy.repeat" \
-                        and dump(v.args[0]) == tg and dump(v.args[1]) == "len(xconfig)":
+                        and dump(v.args[0]) == tg and cnt is not None and dump(cnt) == "len(xconfig)":
                     return
+                if cnt is not None and not isinstance(cnt, (ast.Call, ast.Constant, ast.Attribute, ast.Subscript)):
+                    raise PUnrec("expansion count %s of %s not traced" % (dump(cnt)[:30], tg))
                 raise PViol("R6-alignment", "scalar %s is expanded as %s, not to one entry per cross" % (tg, dump(v)[:50]), a, "numpy.repeat(%s, len(xconfig))" % tg, dump(v)[:50])
             if "miscout" in t:
                 return
@@ -873,7 +881,7 @@ def check_protocol(prog, rep, cname):
     if b is None:
         rep.violate("R7-names", construct, "family_counter is not advanced", where(f))
         good7 = False
-    elif not nfamname or b[2] != nfamname[0]:
+    elif not nfamname or (b[2] not in nfamname and b[2] != "len(xconfig)"):
         rep.violate("R7-names", construct, "family_counter advances by %s, not by the number of crosses" % b[2], where(f, b[3]), "len(xconfig)", b[2])
         good7 = False
     elif "taxa_grp" in kws and isinstance(kws["taxa_grp"], ast.Name):
